@@ -122,6 +122,49 @@ CHECKS = {
             "synthetic audit-log JSON into the documented tuples.",
             "trusted: the contradiction rules in checks/c20.py (same definitions as vlib/irv.py); n <= 5 quick, 6 thorough",
             "DESIGN.md section 4, C20"),
+    "C03": ("reference-model monitor over whole simulated (CVR, MVR) populations: the real overstatement assorter, real margins and real pool means vs oracle-computed A_i",
+            "Exploration by runtime monitoring: the election simulator builds CVRs, pools, phantoms (inside and outside pools) "
+            "and manual records with arbitrary discrepancies, drives the library's own workflow (add_pool_contests, "
+            "make_phantoms, make_all_assertions, set_all_margins_from_cvrs, set_tally_pool_means) and evaluates the real "
+            "overstatement_assorter on every card under audit; mean(B)-1/2 must equal (2 mean(A)-1)/(2(2u-v)) with A_i from "
+            "reference assorters. A conservation check of the CVR-side scores localises a failure.",
+            "trusted: the reference assorters in vlib/election.py (cross-checked by C02/C14); coherent pool labelling; "
+            "add_pool_contests applied under style",
+            "DESIGN.md section 4, C03"),
+    "C06": ("runtime contracts (postconditions) on the real Assertion.mvrs_to_data, set_p_values, set_margin_from_cvrs, set_all_margins_from_cvrs during simulated audits",
+            "Exploration by runtime monitoring: the contracts check on every call that each datum lies in [0,u], that u is the "
+            "assorter bound (polling) or 2/(2-v/u_a) (comparison, ONEAudit), that under style exactly the cards whose CVR "
+            "lists the contest and whose sample number is within the threshold contribute, in order, and that test.u equals "
+            "that u after set_p_values / margin setting. Workload: simulated audits with maximal over/understatements, "
+            "phantoms, missing contests, pooled CVRs, super-majority shares 0.1-0.9 (u_a up to 5), IRV, all audit types.",
+            "trusted: numpy; the sample threshold has been set by a draw before data are built under style",
+            "DESIGN.md section 4, C06"),
+    "C07": ("runtime contract on the real CVR.consistent_sampling vs a 10-line reference sampler; follow-up data check; determinism and vote-independence (metamorphic) monitors",
+            "Exploration by runtime monitoring: on simulated style-based elections (all/disjoint/nested/random styles, cards "
+            "listing no contest, phantoms; SHA256 and adversarial sample numbers incl. 0; size vectors ones/all/one-exhausted/"
+            "random) the contract compares the returned indices, their order, every threshold and the sampled flags with the "
+            "reference; the same history is continued through prep_comparison_sample and mvrs_to_data, which must hand each "
+            "contest exactly its first n_c cards in order; sample numbers must depend on (seed, position) only and the "
+            "selection only on styles.",
+            "trusted: the reference sampler in checks/c07.py; distinct sample numbers; n_c <= cards listing c",
+            "DESIGN.md section 4, C07"),
+    "C08": ("runtime contract on the real CVR.make_phantoms (snapshot + accounting) and history monitor of phantom scoring over every simulated (mvr, cvr) pair",
+            "Exploration by runtime monitoring: the contract checks per-contest and total accounting, unchanged-and-first "
+            "originals, unique ids, the phantom-count ceiling and contest.cvrs for every combination of per-contest shortfalls "
+            "(zero after positive, all different, unspecified bounds), style on and off, pooled and unpooled phantoms; for "
+            "every pair of the simulated audit the real overstatement assorter with a phantom MVR must not exceed the real "
+            "one and must differ from it by exactly the manual record's reference score; unpooled phantom CVRs score 1/2.",
+            "trusted: reference assorters; bounds >= CVR counts; input lists without phantoms",
+            "DESIGN.md section 4, C08"),
+    "C09": ("runtime contracts on the real set_p_values (recomputation with an independent copy of each configured test), summarize_status and reset_p_values over multi-call audit histories",
+            "Exploration by runtime monitoring: before every set_p_values call each assertion's test object is deep-copied; "
+            "afterwards the copy is run on mvrs_to_data's output and must reproduce the recorded p-value and history; contest "
+            "maxima, the returned maximum, the sticky proved flag and the contest dictionaries are checked; summarize_status "
+            "must equal the conjunction over all assertions with each contest's own limit (1-4 contests, different limits, "
+            "p exactly at the limit via Kaplan-Markov on dyadic data, same-length re-reads without reset); reset must restore "
+            "p=1, empty history, unproved; check_audit_parameters must reject injected invalid parameters.",
+            "trusted: copy.deepcopy of NonnegMean objects (bound methods are re-bound to the copy)",
+            "DESIGN.md section 4, C09"),
 }
 
 PENDING_REASON = ("check designed in DESIGN.md section 4 but not yet built in this session; "
